@@ -17,6 +17,7 @@ import string
 import common as C
 
 META = {
+    "claimed": True,
     "id": "C17",
     "coq_targets": ["Props/C17.vo", "Extract/Extract_C17.vo"],
     "technique": "Coq proof (loop invariant through the six steps of the pipeline: used columns + props_left is a permutation of the source columns, mapping keys distinct, no leftover column spelled like an assigned key) + differential correspondence of the extracted model with the implementation under recorded difflib answers",
